@@ -150,6 +150,51 @@ PROPS = {
             "the cleared-timer set across calls: unit W proves that polling a timer future takes exactly its own id out of the set; an id cleared after its future is gone stays (F8, cross-call history) and Time::clear itself is an async block",
         ],
     },
+    "C14": {
+        "kani": [],
+        "verus": ["H"],
+        "trusted_base": ["Verus 0.2026.09.13 + Z3 (unit H: extracted into_protocol_request and the endpoint closure of Client::send)"],
+        "assumptions": [
+            "http-types is third-party: the request is an opaque value seen through assumed accessor contracts (is_empty = declared length known and zero, take_body/into_bytes read the body to its end, method(), url(), Display of Method/Url); a body declared empty reads as empty (axiom empty_body_reads_empty)",
+            "rule X13: the header iterator chain `self.iter().flat_map(|(name, values)| values.iter().map(|value| HttpHeader{..})).collect()` is replaced, by a rule keyed to exactly that text, by an ASSUMED call that builds one HttpHeader per (name, value) pair in the header map's iteration order; any other shape of that chain leaves the check undecided",
+            "rule X17 (synchronous projection) as for C16",
+        ],
+        "not_decided": [
+            "everything the builders delegate to http-types (header insertion, content types for string/JSON/form/byte bodies, query encoding): third-party code without contracts",
+            "the ORDER of headers in the protocol request is the hash map's iteration order (C11, F6) - C14 compares header sets",
+            "that each API call emits exactly one request effect: the endpoint closure asks the shell exactly once (unit H, under C16); the command API's build() is an async closure over Command::request_from_shell (unit X proves that constructor)",
+        ],
+    },
+    "C15": {
+        "kani": [],
+        "verus": ["H"],
+        "trusted_base": ["Verus 0.2026.09.13 + Z3 (unit H: extracted From<HttpResponse> for ResponseAsync, Response::new)"],
+        "assumptions": [
+            "http-types is third-party: Response::new(status) PANICS for a status code its StatusCode enum has no name for (assumed precondition known_status, read off http-types 2.12 response.rs:63), set_body/append_header record what they are given, body_bytes reads the body to its end and leaves status/headers/version alone, is_client_error = 400..=499, is_server_error = 500..=599",
+            "rule X17 (synchronous projection) as for C16",
+        ],
+        "not_decided": [
+            "body expectations (string with charset, JSON): decode_body / body_json delegate to encoding_rs and serde_json",
+            "that each API produces exactly ONE outcome event: RequestBuilder::send (capability API) and build() (command API) are async closures; their Err pass-through arms are not extracted",
+        ],
+    },
+    "C16": {
+        "kani": [],
+        "verus": ["H"],
+        "trusted_base": ["Verus 0.2026.09.13 + Z3 (unit H: extracted Next::run, Redirect::handle, REDIRECT_CODES, Client::send of crux_http)"],
+        "assumptions": [
+            "http-types / url are third-party: Url::parse / Url::join are uninterpreted (parse_spec / join_spec: whatever RFC 3986 resolution the url crate implements), Request/ResponseAsync/HeaderValues are opaque values seen through assumed accessor contracts (url, as_mut, url_mut, clone = same URL/method/headers with an empty body, status, header(LOCATION), last().as_str())",
+            "rule X17 (synchronous projection): async fn -> fn, .await erased; `client.send(r).await` inside a middleware is an assumed call that logs the request and yields any answer; `next.run(req, client).await` inside a middleware is an assumed call that logs the forwarded request (Next::run itself is proved separately)",
+            "dyn Middleware::handle is user code: assumed only to have been called with the request and the rest of the chain it was given (logged)",
+            "the endpoint closure called once is one trip to the shell (its body, built in Client::send, is under contract separately)",
+            "partial correctness: the redirect loop is bounded by `attempts` (proved: redirect_count <= attempts), termination of callees is not claimed",
+        ],
+        "not_decided": [
+            "that every middleware calls next.run exactly once (user code); 'the shell is reached exactly once per invocation of the rest of the chain' is proved for the empty rest (the endpoint is called once) and, per link, that Next::run hands the request to the first remaining middleware with exactly the remaining chain",
+            "the command API's `.middleware(..)` (crux_http/src/command.rs): build() converts the request directly and never runs the per-request middleware - seen while reading, not expressible as a contract of a function that exists",
+            "what url::Url::join computes (RFC 3986 resolution) - third party",
+        ],
+    },
     "C01": {
         "kani": [],
         "verus": ["Q", "X"],
